@@ -289,6 +289,9 @@ def cut_loop(ex, s, st, spec, ordn, n, item, is_while=False):
             if iter_cell is not None and cid == iter_cell.id:
                 raise SymErr('%s mutates the sequence it iterates' % tag)
 
+    if spec.inv is not None or any(nm not in (spec.defs(Ctx(ex, entry, entry), None if is_while else 0) if spec.defs else {})
+                                   for nm in body_names if nm in entry.locals):
+        ex.abstract_calls = True       # havocked variables: outcomes are no longer a function of the inputs
     outs = []
     # 1. established at entry
     check(st, None if is_while else 0, 'inv-entry')
